@@ -34,6 +34,7 @@ const (
 	kError
 	kStruct
 	kSlice
+	kBytes // []byte as a value with capacity (second part of Code.lean) -> Slice
 )
 
 type gtype struct {
@@ -91,6 +92,8 @@ func (t gtype) lean() string {
 			e = "(" + e + ")"
 		}
 		return "List " + e
+	case kBytes:
+		return "Slice"
 	}
 	return "?"
 }
@@ -124,6 +127,18 @@ type fnCtx struct {
 	tmp       int
 	scopes    []map[string]*varInfo
 	used      map[string]bool // lean names used in this function
+	// second part (slices, panics, loops); see code_slice.go
+	sig      *fnSig
+	probe    bool     // first pass: find out whether the function needs Res / grow / fuel
+	pre      []string // lines hoisted in front of the statement being translated
+	nbind    int      // number of Res.bind emitted so far
+	mutHoist []hoist  // mutating calls hoisted out of the current statement
+	loops    []*loopCtx
+	nloops   int
+	loopDefs []loopDef
+	aux      [][]string // loop functions, emitted in front of the function
+	end      cont
+	labels   map[string][]ast.Stmt // label of a statement of the function body -> the statements from there on
 }
 
 type codegen struct {
@@ -141,6 +156,14 @@ type codegen struct {
 	done       map[fnKey]bool
 	busy       map[fnKey]bool
 	outs       []fnOut
+	// second part
+	phase2        bool
+	white2Set     map[fnKey]bool
+	structPhase   map[string]int
+	sigs          map[fnKey]*fnSig
+	errVars       map[string]*errVar
+	errVarDropped map[string]bool
+	errVarUse     []string
 }
 
 func (c *codegen) pos(n ast.Node) string {
@@ -200,6 +223,15 @@ func (c *codegen) src(n ast.Node) string {
 		return "*" + c.src(x.X)
 	case *ast.IndexExpr:
 		return c.src(x.X) + "[" + c.src(x.Index) + "]"
+	case *ast.SliceExpr:
+		lo, hi := "", ""
+		if x.Low != nil {
+			lo = c.src(x.Low)
+		}
+		if x.High != nil {
+			hi = c.src(x.High)
+		}
+		return c.src(x.X) + "[" + lo + ":" + hi + "]"
 	case *ast.CompositeLit:
 		return c.src(x.Type) + "{...}"
 	case *ast.ArrayType:
@@ -230,8 +262,14 @@ func (c *codegen) typeOf(e ast.Expr, at ast.Node) gtype {
 			return gtype{kind: kError}
 		}
 		if _, ok := c.structs[x.Name]; ok {
-			c.needStruct(x.Name, at)
-			return gtype{kind: kStruct, name: x.Name}
+			name := x.Name
+			if c.phase2 && c.structPhase[name] == 1 && c.hasBytesField(name, map[string]bool{}) {
+				// a struct of the first part whose []byte fields are lists there: the
+				// second part uses its own version (Lean name with a prime) with Slice fields
+				name += "'"
+			}
+			c.needStruct(name, at)
+			return gtype{kind: kStruct, name: name}
 		}
 	case *ast.StarExpr:
 		// pointers only to structs (receivers); modelled by value
@@ -242,6 +280,9 @@ func (c *codegen) typeOf(e ast.Expr, at ast.Node) gtype {
 	case *ast.ArrayType:
 		if x.Len == nil {
 			t := c.typeOf(x.Elt, at)
+			if c.phase2 && t.kind == kU8 {
+				return gtype{kind: kBytes}
+			}
 			return gtype{kind: kSlice, elem: &t}
 		}
 	}
@@ -255,6 +296,11 @@ func (c *codegen) needStruct(name string, at ast.Node) {
 		return
 	}
 	c.structSeen[name] = true
+	if c.phase2 {
+		c.structPhase[name] = 2
+	} else {
+		c.structPhase[name] = 1
+	}
 	for _, f := range c.structFields(name, at) {
 		_ = f
 	}
@@ -268,9 +314,13 @@ type sfield struct {
 
 func (c *codegen) structFields(name string, at ast.Node) []sfield {
 	var out []sfield
-	for _, f := range c.structs[name] {
+	for _, f := range c.structs[goStruct(name)] {
 		if f.name == "" {
-			c.fail(at, "embedded field %s in struct %s", f.typ, name)
+			// embedded struct: a field named after its type; its fields are promoted
+			if _, ok := c.structs[f.typ]; !ok || c.structPhase[name] != 2 {
+				c.fail(at, "embedded field %s in struct %s", f.typ, name)
+			}
+			f.name = f.typ
 		}
 		if leanReserved[f.name] {
 			c.fail(at, "field name %s of struct %s is reserved in Lean", f.name, name)
@@ -280,8 +330,31 @@ func (c *codegen) structFields(name string, at ast.Node) []sfield {
 	return out
 }
 
+// goStruct is the Go name of a struct (the Lean name of the second-part version of a
+// first-part struct carries a prime).
+func goStruct(name string) string { return strings.TrimSuffix(name, "'") }
+
+func (c *codegen) hasBytesField(name string, seen map[string]bool) bool {
+	if seen[name] {
+		return false
+	}
+	seen[name] = true
+	for _, f := range c.structs[name] {
+		t := strings.TrimPrefix(f.typ, "[]")
+		if f.typ == "[]byte" || f.typ == "[]uint8" {
+			return true
+		}
+		if _, ok := c.structs[t]; ok && c.hasBytesField(t, seen) {
+			return true
+		}
+	}
+	return false
+}
+
 func (c *codegen) typeOfStr(s string, in string, at ast.Node) gtype {
 	switch {
+	case s == "[]byte" && c.structPhase[in] == 2:
+		return gtype{kind: kBytes}
 	case strings.HasPrefix(s, "[]"):
 		t := c.typeOfStr(s[2:], in, at)
 		return gtype{kind: kSlice, elem: &t}
@@ -292,16 +365,40 @@ func (c *codegen) typeOfStr(s string, in string, at ast.Node) gtype {
 }
 
 func (c *codegen) fieldType(t gtype, f string, at ast.Node) gtype {
+	_, ft := c.fieldPath(t, f, at)
+	return ft
+}
+
+// fieldPath resolves the selector .f on a struct; a field promoted from an
+// embedded struct yields the path through the embedded field.
+func (c *codegen) fieldPath(t gtype, f string, at ast.Node) ([]string, gtype) {
 	if t.kind != kStruct {
 		c.fail(at, "selector .%s on non-struct type %s", f, t)
 	}
 	for _, sf := range c.structFields(t.name, at) {
 		if sf.name == f {
-			return sf.typ
+			return []string{f}, sf.typ
 		}
 	}
-	c.fail(at, "struct %s has no field %s", t.name, f)
-	return gtype{}
+	var found []string
+	var ft gtype
+	for _, raw := range c.structs[goStruct(t.name)] {
+		if raw.name != "" {
+			continue
+		}
+		for _, sf := range c.structFields(raw.typ, at) {
+			if sf.name == f {
+				if found != nil {
+					c.fail(at, "ambiguous promoted field %s in struct %s", f, t.name)
+				}
+				found, ft = []string{raw.typ, f}, sf.typ
+			}
+		}
+	}
+	if found == nil {
+		c.fail(at, "struct %s has no field %s", t.name, f)
+	}
+	return found, ft
 }
 
 func zeroValue(t gtype) string {
@@ -316,6 +413,8 @@ func zeroValue(t gtype) string {
 		return "Err.ok"
 	case kSlice:
 		return "[]"
+	case kBytes:
+		return "Slice.nil"
 	}
 	return ""
 }
@@ -337,6 +436,8 @@ var leanReserved = map[string]bool{
 	"shrU8": true, "shlU8": true, "bitsLen32": true, "bitsLen64": true, "Err": true, "List": true,
 	"Int": true, "Nat": true, "UInt8": true, "UInt32": true, "UInt64": true, "Bool": true,
 	"String": true, "decide": true, "true": true, "false": true, "LZ": true,
+	// second part
+	"grow": true, "fuel": true, "Res": true, "Slice": true,
 }
 
 func (c *codegen) push() { c.cur.scopes = append(c.cur.scopes, map[string]*varInfo{}) }
@@ -354,6 +455,9 @@ func (c *codegen) lookup(name string) *varInfo {
 // declare introduces a Go variable in the innermost scope.  The Lean name is
 // the Go name unless that would capture a variable that is still visible.
 func (c *codegen) declare(name string, t gtype) *varInfo {
+	if c.phase2 && tmpName.MatchString(name) {
+		c.fail(c.cur.fd, "variable name %s collides with the names of generated temporaries", name)
+	}
 	lean := name
 	if leanReserved[lean] {
 		lean += "_"
@@ -581,6 +685,9 @@ func (c *codegen) expr(e ast.Expr, want gtype, bare bool) (string, gtype) {
 				if want.kind == kError {
 					return "Err.ok", want
 				}
+				if want.kind == kBytes {
+					return "Slice.nil", want
+				}
 				c.fail(e, "nil of type %s", want)
 			}
 		case "true", "false":
@@ -591,11 +698,31 @@ func (c *codegen) expr(e ast.Expr, want gtype, bare bool) (string, gtype) {
 		if v := c.lookup(x.Name); v != nil {
 			return v.lean, v.typ
 		}
+		if c.phase2 {
+			if ev := c.errVarOf(x.Name, e); ev != nil {
+				return ev.lean, gtype{kind: kError}
+			}
+			if c.errVarDropped[x.Name] {
+				c.fail(e, "package-level error variable %s is assigned or has its address taken somewhere in the package: not a constant", x.Name)
+			}
+		}
 		c.fail(e, "identifier %s (not a local variable, parameter or integer/string constant)", x.Name)
 	case *ast.SelectorExpr:
 		s, t := c.expr(x.X, gtype{}, false)
-		ft := c.fieldType(t, x.Sel.Name, e)
-		return paren(s) + "." + x.Sel.Name, ft
+		fp, ft := c.fieldPath(t, x.Sel.Name, e)
+		return paren(s) + "." + strings.Join(fp, "."), ft
+	case *ast.IndexExpr:
+		return c.indexExpr(x)
+	case *ast.SliceExpr:
+		return c.sliceExpr(x)
+	case *ast.CompositeLit:
+		return c.compositeLit(x)
+	case *ast.StarExpr:
+		// *p where p is a pointer to a struct modelled by value (the receiver)
+		if id, ok := x.X.(*ast.Ident); ok && c.cur.recvVar == id.Name && c.lookup(id.Name) != nil && c.phase2 {
+			return c.expr(x.X, want, bare)
+		}
+		c.fail(e, "pointer dereference %s", c.src(e))
 	case *ast.UnaryExpr:
 		switch x.Op {
 		case token.NOT:
@@ -742,10 +869,17 @@ func (c *codegen) cond(e ast.Expr) string {
 		}
 	case *ast.BinaryExpr:
 		switch x.Op {
-		case token.LAND:
-			return paren(c.cond(x.X)) + " ∧ " + paren(c.cond(x.Y))
-		case token.LOR:
-			return paren(c.cond(x.X)) + " ∨ " + paren(c.cond(x.Y))
+		case token.LAND, token.LOR:
+			a := c.cond(x.X)
+			n := len(c.cur.pre)
+			b := c.cond(x.Y)
+			if len(c.cur.pre) != n {
+				c.fail(x.Y, "operation that may panic, or call with effects, on the right of %s (short-circuit evaluation)", x.Op)
+			}
+			if x.Op == token.LAND {
+				return paren(a) + " ∧ " + paren(b)
+			}
+			return paren(a) + " ∨ " + paren(b)
 		case token.EQL, token.NEQ, token.LSS, token.LEQ, token.GTR, token.GEQ:
 			// nil comparisons take the type of the other side
 			var a, b string
@@ -763,7 +897,7 @@ func (c *codegen) cond(e ast.Expr) string {
 			if ordered && !t.numeric() {
 				c.fail(e, "ordering comparison on %s", t)
 			}
-			if !ordered && (t.kind == kSlice || t.kind == kInvalid) {
+			if !ordered && (t.kind == kSlice || t.kind == kBytes || t.kind == kInvalid) {
 				c.fail(e, "equality on %s", t)
 			}
 			op := map[token.Token]string{token.EQL: "=", token.NEQ: "≠", token.LSS: "<",
